@@ -1,6 +1,6 @@
 #!/usr/bin/env python3
 """print the prompt for a seeded-change sub-agent: tool/seed_prompt.py C07 /tmp/seed/C07 [round]
-(round 2 asks for three changes A, B, C with a diversity requirement)"""
+(round 2 asks for three changes A, B, C with a diversity requirement; round 3 for three changes made in the roles optimiser / feature author / cleaner)"""
 import json
 import sys
 
@@ -47,6 +47,12 @@ produce one convincing change, deliver one and say so.''' % {'wt': wt, 'pid': pi
 if rnd == 2:
     text = text.replace('produce TWO independent source changes (call them A and B)', 'produce THREE independent source changes (call them A, B and C)')
     text = text.replace('(for change B pick a different mechanism / code site than for A where possible)', '(each at a different code site and through a different mechanism: at most one of the three may be a weakened or dropped condition in the primary handler; at least one must sit in a helper, a secondary path, an error path or a less obvious collaborator of the mechanism, and at least one must be a data-flow, ordering or state-lifetime change - a value taken from the wrong place, something done in the wrong order, state kept or reset at the wrong moment - rather than a changed condition)')
+    text = text.replace('  B/...          the same for change B', '  B/..., C/...   the same for changes B and C')
+    text = text.replace('summarise A and B', 'summarise A, B and C')
+    text = text.replace('If you could only\nproduce one convincing change, deliver one and say so.', 'If you could only produce fewer convincing changes, deliver those and say so.')
+if rnd == 3:
+    text = text.replace('produce TWO independent source changes (call them A and B)', 'produce THREE independent source changes (call them A, B and C)')
+    text = text.replace('(for change B pick a different mechanism / code site than for A where possible)', '(write them as three different developers would: A is the slip of someone OPTIMISING - caching a value, skipping work that "cannot be needed", reusing a buffer or object, short-cutting a loop; B is the slip of someone ADDING A FEATURE or handling a new edge case - a new branch, option, default or fallback that interacts badly with the existing mechanism; C is the slip of someone CLEANING UP - extracting or inlining a helper, replacing a loop by an algorithm, changing a container, type or API, reordering or merging statements - where the rewritten code is almost, but not quite, equivalent. None of the three may be just a deleted or negated check in the function a reviewer would look at first: prefer initialisation, cleanup and reset code, copy/assignment, default values, the choice of data structure or key, collaborators and callers of the mechanism, inline functions in headers, or a sibling implementation of the same interface)')
     text = text.replace('  B/...          the same for change B', '  B/..., C/...   the same for changes B and C')
     text = text.replace('summarise A and B', 'summarise A, B and C')
     text = text.replace('If you could only\nproduce one convincing change, deliver one and say so.', 'If you could only produce fewer convincing changes, deliver those and say so.')
